@@ -190,6 +190,8 @@ def random_history(seed, net="regtest", nblocks=14, thr=None, full=True, diffs=N
                    upgrades=True, defects=True, heavy_probes=False, name=None, lazy=None, gate=None):
     """A random fork tree delivered through heartbeats (full mode, regtest) or pushed directly."""
     rng = random.Random(seed)
+    if full is None:
+        full = (net == "regtest")
     if diffs is None:
         diffs = rng.choice([(1,), (1,), (1, 2), (1, 2, 3), (1, 2, 3, 5, 8)])
     w = World(rng, net=net, naddr=rng.choice([3, 4, 5]), diffs=diffs)
